@@ -467,6 +467,143 @@ async fn socket_case(ctx: &mut Ctx, ty: &str, idlen: usize, shapes: &[Vec<usize>
     }
 }
 
+/// Messages encoded while earlier ones are still waiting in the connection's write buffer
+/// (a publisher whose subscriber does not read; a send abandoned under back-pressure
+/// followed by another one): what finally goes on the wire is still exactly the frame
+/// sequences of the messages, one after the other.
+async fn buffered_encode_case(ctx: &mut Ctx, ty: &str, shapes: &[Vec<usize>], case: &Value) {
+    let mut sock = Sock::new(ty, None);
+    let peer = match Peer::attach(&sock, peer_type_for(ty), Some(b"peer-1")).await {
+        Ok(p) => p,
+        Err(e) => {
+            ctx.violation_with("C01/handshake-failed", format!("{ty}: {e}"), case.clone());
+            return;
+        }
+    };
+    if ty == "PUB" || ty == "XPUB" {
+        peer.send(&[vec![1u8]]);
+        if ty == "XPUB" {
+            let _ = sim::complete(sock.recv()).await;
+        }
+        sim::settle().await;
+    }
+    let start = peer.conn.tap_len();
+    peer.conn.set_credit(Some(0));
+    let mut expected: Vec<u8> = Vec::new();
+    let mut first_may_be_lost = false;
+    for (k, lens) in shapes.iter().enumerate() {
+        let mut app: Frames = lens.iter().enumerate().map(|(i, l)| body(0xB0F ^ (k as u64) << 8, i, *l)).collect();
+        if ty == "ROUTER" {
+            app.insert(0, peer.id.clone());
+        }
+        let wire = expected_wire(ty, &app);
+        if ty == "PUB" || ty == "XPUB" {
+            // never waits; everything stays queued behind the stalled connection
+            if !matches!(sim::complete(sock.send(&app)).await, Ok(Ok(()))) {
+                ctx.violation_with("C01/publish-failed", format!("{ty}"), case.clone());
+                return;
+            }
+            expected.extend(rc::message(&wire));
+        } else {
+            // the send waits for the connection and is abandoned; its bytes stay queued
+            let mut f = crate::sim::Managed::new(sock.send(&app));
+            let r = f.poll_once();
+            drop(f);
+            if r.is_pending() {
+                ctx.count("sends_abandoned_with_bytes_queued");
+            }
+            expected.extend(rc::message(&wire));
+            if k == 0 {
+                first_may_be_lost = false;
+            }
+        }
+        ctx.count("messages_encoded_behind_queued_bytes");
+    }
+    let _ = first_may_be_lost;
+    peer.conn.set_credit(None);
+    // one more message pushes everything out
+    let mut last: Frames = vec![body(0xB0E, 0, 3)];
+    if ty == "ROUTER" {
+        last.insert(0, peer.id.clone());
+    }
+    let r = sim::complete(sock.send(&last)).await;
+    sim::settle().await;
+    expected.extend(rc::message(&expected_wire(ty, &last)));
+    let got = peer.conn.tap_from(start);
+    if !matches!(r, Ok(Ok(()))) || got != expected {
+        let d = rc::decode_stream(&got, false);
+        let first_diff = got.iter().zip(expected.iter()).position(|(a, b)| a != b).unwrap_or(got.len().min(expected.len()));
+        ctx.violation_with(
+            "C01/wire/messages-encoded-behind-queued-bytes",
+            format!(
+                "{ty}: {} messages were encoded while earlier bytes were still queued for the connection; the wire has {} bytes, expected {} (first difference at offset {first_diff}; decodes to {} messages, error {:?}); last send: {r:?}",
+                shapes.len(),
+                got.len(),
+                expected.len(),
+                d.messages().len(),
+                d.error
+            ),
+            case.clone(),
+        );
+    }
+}
+
+/// The greeting and READY a socket emits on a REAL connection, as the bound end and as the
+/// connecting end (the in-memory attach hook runs the same handshake function, but which
+/// function the transports call, and with which role, is only visible here).
+async fn rig_handshake(ctx: &mut Ctx, ty: &str, idlen: usize, transport: &str, role: &str, case: &Value) {
+    use crate::rig::{self, Raw, RawListener, WAIT};
+    let identity: Option<Vec<u8>> = if idlen == 0 { None } else { Some((0..idlen).map(|i| (i as u8).wrapping_mul(41).wrapping_add(3)).collect()) };
+    let mut sock = Sock::new(ty, identity.as_deref());
+    let peer_ty = peer_type_for(ty);
+    let bytes: Result<Vec<u8>, String> = if role == "bound" {
+        match sock.bind(&rig::bind_endpoint(transport)).await {
+            Ok(ep) => match tokio::time::timeout(WAIT, Raw::connect(&ep)).await {
+                Ok(Ok(mut raw)) => raw.handshake(peer_ty, Some(b"peer-1")).await,
+                other => Err(format!("connect: {:?}", other.map(|r| r.map(|_| ()).map_err(|e| e.to_string())))),
+            },
+            Err(e) => Err(format!("bind: {e}")),
+        }
+    } else {
+        match RawListener::bind(transport).await {
+            Ok((l, ep)) => {
+                let (c, hs) = tokio::join!(tokio::time::timeout(WAIT, sock.connect(&ep)), async {
+                    match tokio::time::timeout(WAIT, l.accept()).await {
+                        Ok(Ok(mut raw)) => {
+                            let r = raw.handshake(peer_ty, Some(b"peer-1")).await;
+                            // stay connected until the library's connect() has returned
+                            tokio::time::sleep(std::time::Duration::from_millis(20)).await;
+                            r
+                        }
+                        other => Err(format!("accept: {:?}", other.map(|r| r.map(|_| ())))),
+                    }
+                });
+                let _ = c;
+                hs
+            }
+            Err(e) => Err(format!("listen: {e}")),
+        }
+    };
+    let _ = tokio::time::timeout(WAIT, sock.close()).await;
+    let tap = match bytes {
+        Ok(b) => b,
+        Err(e) => {
+            if rig::canary_ok().await {
+                ctx.violation_with("C01/handshake-failed", format!("{ty} ({role}, {transport}): handshake with a valid {peer_ty} peer failed: {e}"), case.clone());
+            } else {
+                ctx.inconclusive(format!("C01 rig handshake failed while the canary was slow: {e}"));
+            }
+            return;
+        }
+    };
+    ctx.count("rig_handshakes_judged");
+    ctx.count(&format!("rig_handshakes/{role}/{transport}"));
+    if !judge_greeting(ctx, ty, &tap, case) {
+        return;
+    }
+    let _ = judge_ready(ctx, ty, identity.as_deref(), &tap, case);
+}
+
 impl Prop for C01 {
     fn id(&self) -> &'static str {
         "C01"
@@ -507,11 +644,39 @@ impl Prop for C01 {
                 v.push(json!({"kind": "socket", "ty": ty, "idlen": idlen, "shapes": shapes}));
             }
         }
+        for ty in ["PUB", "XPUB", "PUSH", "DEALER", "ROUTER"] {
+            for shapes in [vec![vec![1usize], vec![0], vec![5, 0]], vec![vec![255], vec![256], vec![0, 0, 1]], vec![vec![70_000], vec![3]], vec![vec![2]; 12]] {
+                v.push(json!({"kind": "buffered", "ty": ty, "shapes": shapes}));
+            }
+        }
+        for ty in ALL_TYPES {
+            for (k, transport) in ["tcp4", "ipc", "tcp6"].into_iter().enumerate() {
+                for role in ["bound", "connecting"] {
+                    let idlen = [0usize, 5, 255][k];
+                    v.push(json!({"kind": "rig_handshake", "ty": ty, "idlen": idlen, "transport": transport, "role": role}));
+                }
+            }
+        }
         v
     }
 
     fn run(&self, case: &Value, ctx: &mut Ctx) {
         match s(case, "kind") {
+            "buffered" => {
+                ctx.eval(crate::prng::hash_str(&case.to_string()), true);
+                ctx.sample("buffered", || case.clone());
+                let shapes: Vec<Vec<usize>> = case["shapes"].as_array().map(|a| a.iter().map(|x| x.as_array().map(|y| y.iter().map(|z| z.as_u64().unwrap_or(0) as usize).collect()).unwrap_or_default()).collect()).unwrap_or_default();
+                let ty = s(case, "ty").to_string();
+                sim::run(buffered_encode_case(ctx, &ty, &shapes, case));
+            }
+            "rig_handshake" => {
+                ctx.eval(crate::prng::hash_str(&case.to_string()), true);
+                ctx.sample("rig_handshake", || case.clone());
+                let ty = s(case, "ty").to_string();
+                let (transport, role) = (s(case, "transport").to_string(), s(case, "role").to_string());
+                let idlen = u(case, "idlen") as usize;
+                crate::rig::run(2, rig_handshake(ctx, &ty, idlen, &transport, &role, case));
+            }
             "grid" => {
                 ctx.sample("grid", || case.clone());
                 grid_batch(ctx, u(case, "n") as usize, u(case, "first") as usize)
@@ -576,6 +741,8 @@ impl Prop for C01 {
             ("codec_messages", 16_000),
             ("socket_messages", 200),
             ("handshakes_judged", 36),
+            ("rig_handshakes_judged", 50),
+            ("messages_encoded_behind_queued_bytes", 60),
             ("frames_len_0", 10),
             ("frames_len_255", 10),
             ("frames_len_256", 10),
